@@ -248,14 +248,79 @@ static void probe_known()
 
 static bool probes_done = false;
 
+// A context used once (idle, mid-handshake or in the data phase) gets other
+// I/O memory - any layout, any size including sizes below the documented
+// minimum - and the reset the documentation requires after that.  Oracle: a
+// size below the minimum of its layout leaves the engine closed with
+// BR_ERR_BAD_PARAM after the reset; any other size leaves it live, every
+// region inside the NEW memory (the endpoint wrapper checks that after every
+// call), and the pair then completes a handshake and moves data.
+static void rebuffer_case(Pair &P, Tape &t, unsigned cfgb, unsigned sizeb, unsigned nround)
+{
+	unsigned before = t.u8() % 3;   // 0: fresh context, 1: after some handshake rounds, 2: after a full connection
+	if (before == 1) for (unsigned i = 0; i < nround % 24; i++) pump_round(P);
+	if (before == 2) { for (int i = 0; i < 600 && !established(P); i++) pump_round(P); VF_CHECK(established(P), "%s: handshake failed", P.cfg.c_str()); }
+	int side = t.u8() & 1;
+	Profile &pr = side ? P.s->prof : P.c->prof;
+	Profile &peer = side ? P.c->prof : P.s->prof;
+	Layout nl = (Layout)(t.u8() % 3);
+	unsigned cls = t.u8() % 6;      // 0,1: full size, 2: documented minimum, 3: just below, 4: far below, 5: between the half- and full-duplex minimum
+	size_t min_mono = 512 + 325, min_bidi = 512 + 325 + 512 + 85, min_in = 512 + 325, min_out = 512 + 85;
+	unsigned cut = 1 + t.u8() % 40;
+	bool too_small = false;
+	pr.layout = nl;
+	if (nl == L_SPLIT) {
+		pr.ilen = cls <= 1 ? (size_t)BR_SSL_BUFSIZE_INPUT : min_in;
+		pr.olen = cls <= 1 ? (size_t)BR_SSL_BUFSIZE_OUTPUT : min_out;
+		if (cls == 3) { if (cut & 1) pr.ilen -= cut; else pr.olen -= cut; too_small = true; }
+		if (cls == 4) { pr.ilen = cut; pr.olen = cut * 3; too_small = true; }
+	} else {
+		size_t mn = nl == L_MONO ? min_mono : min_bidi;
+		pr.buflen = cls <= 1 ? (nl == L_MONO ? (size_t)BR_SSL_BUFSIZE_MONO : (size_t)BR_SSL_BUFSIZE_BIDI) : mn;
+		if (cls == 3) { pr.buflen -= cut; too_small = true; }
+		if (cls == 4) { pr.buflen = cut * 7; too_small = true; }
+		if (cls == 5 && nl == L_BIDI) { pr.buflen = min_mono + (cut * 13) % (min_bidi - min_mono); too_small = true; }
+	}
+	BearEndpoint *e = P.e[side];
+	e->rebuffer(pr);
+	bool ok = side ? P.s->reset() : P.c->reset();
+	std::string d = fmt("%s | %s (%s) gets a new %s buffer of %zu/%zu/%zu bytes, then reset", P.cfg.c_str(), side ? "server" : "client", before == 0 ? "fresh" : before == 1 ? "mid-handshake" : "used for one connection",
+		nl == L_MONO ? "half-duplex" : nl == L_BIDI ? "full-duplex" : "split", pr.buflen, pr.ilen, pr.olen);
+	if (too_small) {
+		VF_CHECK(!ok && e->closed() && e->error() == BR_ERR_BAD_PARAM, "%s: the size is below the documented minimum, yet reset returned %d, state %#x, error %d (must stay failed with BR_ERR_BAD_PARAM, not run in the previous buffer)",
+			d.c_str(), (int)ok, e->state(), e->error());
+		stats.cls("rebuffer:refused");
+		stats.eval(fmt("rebuf/%u/%d/%u/%u/%u/%u", cfgb & 3, side, before, nl, cls, cut));
+		return;
+	}
+	VF_CHECK(ok && !e->closed(), "%s: reset returned %d, state %#x, error %d", d.c_str(), (int)ok, e->state(), e->error());
+	// the other side restarts too; its input must hold the records of a peer that may now send up to 16384 bytes
+	bool peer_ok = side ? P.c->reset() : P.s->reset();
+	VF_CHECK(peer_ok, "%s: peer reset failed", d.c_str());
+	for (int s2 = 0; s2 < 2; s2++) { P.wire[s2].clear(); P.framer[s2] = Framer(); P.sent[s2] = P.recvd[s2] = 0; }
+	for (int i = 0; i < 800 && !established(P); i++) pump_round(P);
+	VF_CHECK(established(P), "%s: handshake with the new buffer failed (%d/%d)", d.c_str(), P.e[0]->error(), P.e[1]->error());
+	// the endpoint with the smaller memory bounds what its peer may send: stay under 512 bytes per flush
+	(void)peer; (void)sizeb;
+	for (int rep = 0; rep < 6; rep++) {
+		for (int s2 = 0; s2 < 2; s2++) { for (int j = 0; j < 30 + rep; j++) apply(P, s2, C_SENDAPP, j & 1, false); P.e[s2]->flush(false); }
+		for (int i = 0; i < 200; i++) if (!pump_round(P)) break;
+	}
+	for (int d2 = 0; d2 < 2; d2++) VF_CHECK(P.recvd[d2] == P.sent[d2], "%s: %s wrote %zu bytes, peer read %zu", d.c_str(), d2 ? "server" : "client", P.sent[d2], P.recvd[d2]);
+	stats.cls("rebuffer:accepted");
+	stats.eval(fmt("rebuf/%u/%d/%u/%u/%u", cfgb & 3, side, before, nl, cls));
+	if (stats.want_sample()) stats.sample(d + fmt(" => live, handshake done, %zu/%zu bytes delivered", P.recvd[0], P.recvd[1]));
+}
+
 void target_run(Tape &t)
 {
 	if (!probes_done) { probes_done = true; probe_known(); }
-	unsigned cfgb = t.u8(), sizeb = t.u8(), phase = t.u8() % 5, nround = t.u8();
+	unsigned cfgb = t.u8(), sizeb = t.u8(), phase = t.u8() % 6, nround = t.u8();
 	bool hostile = phase == 4;   // data phase, then bytes no honest peer would send: a record announcing a length around the input buffer capacity
 	if (hostile) phase = 3;
 	Pair P;
 	make_pair(P, cfgb, sizeb);
+	if (phase == 5) { rebuffer_case(P, t, cfgb, sizeb, nround); return; }
 	bool excl_f4 = known("client-reneg-with-unflushed-plaintext");
 	if (phase == 1) for (unsigned i = 0; i < nround; i++) pump_round(P);
 	if (phase >= 2) { for (int i = 0; i < 600 && !established(P); i++) pump_round(P); VF_CHECK(established(P), "%s: handshake failed (%d/%d)", P.cfg.c_str(), P.e[0]->error(), P.e[1]->error()); }
